@@ -319,7 +319,10 @@ fn read_server_addresses(src: &mut impl io::Read) -> Result<[Option<SocketAddr>;
                 let addr = SocketAddr::new(IpAddr::V6(Ipv6Addr::from(ip)), port);
                 *server_address = Some(addr);
             }
-            NETCODE_ADDRESS_NONE => {} // skip
+            NETCODE_ADDRESS_NONE => {
+                // An entry without an address would leave a hole in the list, which `write` closes again
+                return Err(io::Error::new(io::ErrorKind::InvalidData, "ConnectToken has an address entry without an address"));
+            }
             _ => return Err(io::Error::new(io::ErrorKind::InvalidData, "Unknown ip address type")),
         }
     }
